@@ -5,6 +5,8 @@ use shuttle::sync::{Mutex, MutexGuard, RwLock, RwLockReadGuard, RwLockWriteGuard
 
 #[derive(Clone, Debug, PartialEq, Eq, Hash)]
 pub enum LockOp {
+    /// catch_unwind(|| { let _g = m.lock(); panic!() }): the guard is released by a panicking holder
+    MPanicHolding(usize),
     MLock(usize),
     MTry(usize),
     MSet(usize, u32),
@@ -47,6 +49,7 @@ pub struct LockLocals {
 pub struct MMutex {
     holder: Option<usize>,
     data: u32,
+    poisoned: bool,
 }
 #[derive(Clone, Debug, PartialEq, Eq, Hash)]
 pub struct MRw {
@@ -93,6 +96,18 @@ impl Family for LockFam {
         // objects live in an Arc held by every thread closure.
         unsafe {
             match op {
+                LockOp::MPanicHolding(i) => {
+                    let m = ext(&o.m[*i]);
+                    let r = std::panic::catch_unwind(std::panic::AssertUnwindSafe(|| {
+                        let _g = match m.lock() {
+                            Ok(g) => g,
+                            Err(p) => p.into_inner(),
+                        };
+                        std::panic::resume_unwind(Box::new("vx: panic while holding the lock"));
+                    }));
+                    assert!(r.is_err());
+                    LockRes::Unit
+                }
                 LockOp::MLock(i) => match ext(&o.m[*i]).lock() {
                     Ok(g) => {
                         let v = *g;
@@ -216,7 +231,7 @@ impl Family for LockFam {
 
     fn objects_of(op: &LockOp) -> Vec<u32> {
         match op {
-            LockOp::MLock(i) | LockOp::MTry(i) | LockOp::MSet(i, _) | LockOp::MUnlock(i) => vec![0x100 + *i as u32],
+            LockOp::MPanicHolding(i) | LockOp::MLock(i) | LockOp::MTry(i) | LockOp::MSet(i, _) | LockOp::MUnlock(i) => vec![0x100 + *i as u32],
             LockOp::RRead(i) | LockOp::RTryRead(i) | LockOp::RWrite(i) | LockOp::RTryWrite(i) | LockOp::RSet(i, _) | LockOp::RUnlockR(i) | LockOp::RUnlockW(i) => vec![0x200 + *i as u32],
         }
     }
@@ -265,7 +280,7 @@ impl Family for LockFam {
     }
     fn m_init(cfg: &LockCfg, _n: usize) -> LockM {
         LockM {
-            m: (0..cfg.mutexes).map(|_| MMutex { holder: None, data: 0 }).collect(),
+            m: (0..cfg.mutexes).map(|_| MMutex { holder: None, data: 0, poisoned: false }).collect(),
             r: (0..cfg.rwlocks)
                 .map(|_| MRw {
                     readers: vec![],
@@ -276,18 +291,48 @@ impl Family for LockFam {
         }
     }
 
+    fn weakening(cfg: &LockCfg) -> Option<&'static str> {
+        if cfg.mutexes > 0 {
+            Some("poisoned-mutex-does-not-exclude")
+        } else {
+            None
+        }
+    }
+
     fn m_step(m: &LockM, t: usize, op: &LockOp, _phase: u8, _strict: bool) -> Vec<MStep<LockM, LockRes>> {
         let mut n = m.clone();
         match op {
+            LockOp::MPanicHolding(i) => {
+                let x = &mut n.m[*i];
+                if _phase == 0 {
+                    if x.holder.is_none() {
+                        x.holder = Some(t);
+                        vec![MStep::Cont(n, 1)]
+                    } else if weak() && x.poisoned {
+                        vec![MStep::Panic("state.holder.is_none()".into())]
+                    } else {
+                        vec![]
+                    }
+                } else {
+                    // released by a panicking holder: poisoned from now on
+                    x.holder = None;
+                    x.poisoned = true;
+                    vec![MStep::Done(n, LockRes::Unit)]
+                }
+            }
             LockOp::MLock(i) => {
                 let x = &mut n.m[*i];
-                if x.holder == Some(t) {
+                if x.holder == Some(t) && !x.poisoned {
                     return vec![MStep::Panic("tried to acquire a Mutex it already holds".into())];
                 }
                 if x.holder.is_none() {
                     x.holder = Some(t);
-                    let v = x.data;
-                    vec![MStep::Done(n, LockRes::Locked(v, false))]
+                    let (v, p) = (x.data, x.poisoned);
+                    vec![MStep::Done(n, LockRes::Locked(v, p))]
+                } else if weak() && x.poisoned {
+                    // recorded finding F12: a poisoned mutex no longer blocks a second locker; the
+                    // runtime trips its own assertion instead
+                    vec![MStep::Panic("state.holder.is_none()".into())]
                 } else {
                     vec![]
                 }
@@ -296,8 +341,8 @@ impl Family for LockFam {
                 let x = &mut n.m[*i];
                 if x.holder.is_none() {
                     x.holder = Some(t);
-                    let v = x.data;
-                    vec![MStep::Done(n, LockRes::Locked(v, false))]
+                    let (v, p) = (x.data, x.poisoned);
+                    vec![MStep::Done(n, LockRes::Locked(v, p))]
                 } else {
                     vec![MStep::Done(n, LockRes::WouldBlock)]
                 }
@@ -536,7 +581,56 @@ pub fn programs(cfgs: &[LockCfg], children: usize, k: usize, main_k: usize) -> V
     out
 }
 
+/// Poisoning programs. `std::thread::panicking()` is shared by all green threads, so while one
+/// task unwinds every other task believes it is panicking too (DESIGN.md Appendix B); these
+/// programs therefore keep every other task blocked in `join` while the panic unwinds.
+fn poison_programs() -> Vec<Program<LockFam>> {
+    use LockOp::*;
+    let cfg = LockCfg { mutexes: 1, rwlocks: 0 };
+    let g = |ops: &[LockOp]| -> Vec<GOp<LockOp>> { ops.iter().cloned().map(GOp::Op).collect() };
+    let mut out = Vec::new();
+    // main: the panicking holder ran in thread 1 and was joined; then main (and later threads) lock
+    for tail in [vec![MLock(0), MUnlock(0)], vec![MTry(0)], vec![MLock(0), MSet(0, 5), MUnlock(0), MTry(0)]] {
+        let mut main = vec![GOp::Spawn(1), GOp::Join(1)];
+        main.extend(g(&tail));
+        out.push(Program {
+            cfg: cfg.clone(),
+            threads: vec![main, g(&[MPanicHolding(0)])],
+        });
+    }
+    // the panicking holder is main itself, before anybody else exists
+    out.push(Program {
+        cfg: cfg.clone(),
+        threads: vec![
+            {
+                let mut m = g(&[MPanicHolding(0)]);
+                m.extend(vec![GOp::Spawn(1), GOp::Spawn(2), GOp::Join(1), GOp::Join(2)]);
+                m
+            },
+            g(&[MLock(0), MUnlock(0)]),
+            g(&[MTry(0)]),
+        ],
+    });
+    // two lockers of an already poisoned mutex (mutual exclusion must survive poisoning)
+    out.push(Program {
+        cfg: cfg.clone(),
+        threads: vec![
+            {
+                let mut m = g(&[MPanicHolding(0)]);
+                m.extend(vec![GOp::Spawn(1), GOp::Spawn(2), GOp::Join(1), GOp::Join(2)]);
+                m
+            },
+            g(&[MLock(0), MSet(0, 1), MUnlock(0)]),
+            g(&[MLock(0), MUnlock(0)]),
+        ],
+    });
+    out
+}
+
 pub fn program_set(set: &str) -> Vec<Program<LockFam>> {
+    if set == "poison" {
+        return poison_programs();
+    }
     let m1 = LockCfg { mutexes: 1, rwlocks: 0 };
     let r1 = LockCfg { mutexes: 0, rwlocks: 1 };
     let m2 = LockCfg { mutexes: 2, rwlocks: 0 };
